@@ -60,6 +60,9 @@ CHECKS = {
  "C01": dict(cat="model_checking", tech="stateless exploration of the real fingerprinter with map-iteration orders (overlay-instrumented range statements), pooled-object reuse histories and caller interleavings as explorer choice points; byte-equality with the default execution; process-level configuration runs; separate -race pass",
    text="Every range over a map in the canonicalisation pipeline becomes a choice point derived from the working tree; all executions with at most one (quick) or two (thorough) deviating sites are run for every function of a 61-function corpus under both policies; the canonicaliser pool is modelled so that Get may return any pooled object, over all histories of up to two prior uses and all interleavings of 2-3 concurrent callers, with a pool-discipline monitor; the built binary is run as fresh processes across GOMAXPROCS and directories. Every trace is an implementation run; results must be byte-identical.",
    note="Trusted: permutation menu for maps with more than four keys; scheduling points only at synchronisation operations (the -race pass covers unsynchronised sharing, as sampling).", ref="3/C01"),
+ "C10": dict(cat="model_checking", tech="stateless exploration: map-iteration orders of the reporting layer as choice points (overlay), all interleavings of the per-file worker goroutines of check/scan under the cooperative scheduler (sync and errgroup shims), byte-equality of the rendered reports; repeated process-level runs of the built binary",
+   text="Function matching and signature matching are executed for every permutation choice within the deviation bound; ProcessFilesParallel and RunScanLogic are executed under every interleaving of their workers on trees built to collide (same-named functions, equal confidences, a broken file); the real binary is re-run across GOMAXPROCS settings. All outputs must be byte-identical.",
+   note="Trusted: C01 for the fingerprints themselves; permutation menu for large maps.", ref="3/C10"),
 }
 NOT_YET = {}
 ALL = ["C%02d" % i for i in range(1, 21)]
